@@ -29,7 +29,7 @@ MODULES = ["ESV.Props.C15"]
 THEOREMS = [
     "ESV.C15.cli_docshape", "ESV.C15.cli_settings_complete", "ESV.C15.cli_accepts_documented", "ESV.C15.docShapeStr_documented",
     "ESV.C15.cli_roundtrip", "ESV.C15.cli_build_positional", "ESV.C15.cli_positional", "ESV.C15.cli_conservative",
-    "ESV.C15.cli_coroutines_named",
+    "ESV.C15.cli_coroutines_named", "ESV.C15.cli_offsets_from_zero_example",
     "ESV.C15.cli_raw_positional", "ESV.C15.cli_raw_positional_only", "ESV.C15.cli_raw_positional_iff",
     # witnesses of the repaired defects, against the old behaviour (lean/ESV/Cli/Pinned.lean)
     "ESV.C15.cli_gap_counterexample", "ESV.C15.cli_gap_wrong_op_counterexample", "ESV.C15.cli_out_of_order_counterexample",
@@ -55,6 +55,14 @@ CORPUS = [
     ("empty", ""),
     ("cross_routine", "def 0 { jump @x; }\ndef 1 { a(); @x; b(); return; }"),
     ("out_of_order", "def 0 { switch ($X) { case 1: a(); default: b(); } c(); }"),
+    ("def_then_coro", "def 0 { a(); return; }\ncoro X { b(); return; }"),
+    ("coro_def_coro", "coro A { a(); return; }\ndef 1 { b(); return; }\ncoro B { c(); jump @l; }\ndef 3 for actor(ACTOR_X) { @l; d(); hold; }"),
+    ("actor_coro_alias", "def 0 for object(3) { a(); end; }\ncoro C { b(); return; }\ndef 2 { alias previous; }"),
+    # SsbScript sources: the SsbScript compiler numbers ops from 0
+    ("ssbs_first_op", "//?: is-ssb-script: true\ndef 0 {\n    @top;\n    WaitFrames(1);\n    BranchBit($FLAG, 3, @done);\n    Jump(@top);\n    @done;\n"
+                      "    Return();\n}\ndef 1 for_actor(3) {\n    Call(@top);\n    Hold();\n}\n"),
+    ("ssbs_cross_coro_alias", "//?: is-ssb-script: true\ndef 0 {\n    Jump(@x);\n}\ncoro NAME {\n    a(1, 'str');\n    @x;\n    b();\n    Call(@first);\n    Return();\n}\n"
+                              "def 2 for object OBJ {\n    alias previous;\n}\ndef 3 for performer 0 {\n    @first;\n    c();\n    Jump(@first);\n}\n"),
     ("unparsable", "def 0 { a(; }"),
     ("undefined_label", "def 0 { jump @nolabel; }"),
 ]
@@ -71,6 +79,28 @@ def cfgs_for(tier: str) -> list[Cfg]:
     if tier == "thorough":
         cfgs += [Cfg(max_depth=4, max_stmts=6, max_routines=4, **base)]
     return cfgs
+
+
+def mix_coroutines(rng: random.Random, ast: dict) -> dict | None:
+    """turn some plain `def N` routines of a generated program into `coro NAME` routines, so that coroutines stand before,
+    between and after routines of the other kinds (a coroutine takes the id after the previous routine: ids stay as they are)"""
+    rts = ast["routines"]
+    idx = [i for i, r in enumerate(rts) if r["kind"] == "def" and r.get("body") is not None and r["id"] == i]
+    if len(rts) < 2 or not idx or any(r["kind"] == "coro" for r in rts):
+        return None
+    out = copy.deepcopy(ast)
+    chosen = [i for i in idx if rng.random() < 0.5] or [rng.choice(idx)]
+    for i in chosen:
+        out["routines"][i] = {"kind": "coro", "id": i, "name": f"CORO_{i}", "body": out["routines"][i]["body"]}
+    return out
+
+
+def jumps_to(rs: dict, off: int, jt: dict) -> int:
+    """number of ops of the set whose jump parameter is `off`"""
+    return sum(1 for rt in rs["ops"] for o in rt if o["name"] in jt and jt[o["name"]] < len(o["params"]) and o["params"][jt[o["name"]]] == off)
+
+
+SSBS_MARKER = "//?: is-ssb-script: true\n"
 
 
 def corrupt(rng: random.Random, text: str) -> str:
@@ -351,10 +381,15 @@ def gen_doc(rng: random.Random, base_sets: list[dict], jt: dict) -> dict:
     types / targets re-drawn over all five documented types and extra arguments of all six documented types added to plain ops"""
     rs = copy.deepcopy(rng.choice(base_sets))
     doc = rs_to_doc(rs, jt)
-    coro = rng.random() < 0.2
+    mode = rng.random()      # all coroutines | coroutines mixed with the other types in any order | no coroutine
     int_coords = rng.random() < 0.15
     for i, r in enumerate(doc["routines"]):
-        t = "COROUTINE" if coro else rng.choice(["GENERIC", "GENERIC", "ACTOR", "OBJECT", "PERFORMER"])
+        if mode < 0.1:
+            t = "COROUTINE"
+        elif mode < 0.45:
+            t = rng.choice(["COROUTINE", "COROUTINE", "GENERIC", "ACTOR", "OBJECT", "PERFORMER"])
+        else:
+            t = rng.choice(["GENERIC", "GENERIC", "ACTOR", "OBJECT", "PERFORMER"])
         for k in ("name", "target_id"):
             r.pop(k, None)
         r["type"] = t
@@ -377,7 +412,7 @@ def gen_doc(rng: random.Random, base_sets: list[dict], jt: dict) -> dict:
 
 
 def rst_documents() -> list[dict]:
-    """JSON code blocks of docs/cli_api_usage.rst that are whole documents (the "Compiling an example" output)"""
+    """the examples of docs/cli_api_usage.rst as documents: fixed witnesses that run first"""
     out = []
     try:
         txt = open(os.path.join(core.REPO, "docs", "cli_api_usage.rst"), encoding="utf-8").read()
@@ -391,6 +426,33 @@ def rst_documents() -> list[dict]:
             continue
         if isinstance(d, dict) and "routines" in d and isinstance(d.get("settings"), dict):
             out.append(d)
+    # the "General structure" example with its placeholders filled in (<<SETTINGS>>, <<OPERATION>>, <<ARG_INT or ARG_CONSTANT>>),
+    # in every order of its three routines, and the examples of the section "Argument types" as arguments of one operation
+    arg_examples = []
+    for m in re.finditer(r"\.\. code:: json\n\n((?:    .*\n|\n)+)", txt):
+        body = "\n".join(l[4:] if l.startswith("    ") else l for l in m.group(1).split("\n"))
+        body = body.replace('"<<SETTINGS>>"', json.dumps(SETTINGS["settings"])).replace('"<<OPERATION>>"', '{"opcode": "op_a", "params": [1]}, {"opcode": "Return", "params": []}')
+        if "<<ARG_INT or ARG_CONSTANT>>" in body:
+            for tgt in ('7', '"ACTOR_TARGET"'):
+                try:
+                    d = json.loads(body.replace('"<<ARG_INT or ARG_CONSTANT>>"', tgt))
+                except Exception:
+                    continue
+                if isinstance(d, dict) and isinstance(d.get("routines"), list):
+                    rts = d["routines"]
+                    import itertools
+                    for perm in itertools.permutations(range(len(rts))) if len(rts) <= 3 else [tuple(range(len(rts)))]:
+                        out.append(dict(d, routines=[copy.deepcopy(rts[i]) for i in perm]))
+            continue
+        try:
+            d = json.loads(body)
+        except Exception:
+            continue
+        if isinstance(d, dict) and set(d) == {"type", "value"}:
+            arg_examples.append(d)
+    if arg_examples:
+        out.append({"settings": copy.deepcopy(SETTINGS["settings"]), "routines": [
+            {"type": "GENERIC", "ops": [{"opcode": "op_b", "params": [5] + arg_examples}, {"opcode": "Return", "params": []}]}]})
     return out
 
 
@@ -662,8 +724,30 @@ def run(run: core.Run) -> int:
         c = {"text": p["text"], "ast": p["ast"]}
         if i < n_sub and rng.random() < 0.15:
             c = {"text": corrupt(rng, p["text"]), "corrupted": True}
+        elif rng.random() < 0.25:
+            mixed = mix_coroutines(rng, p["ast"])
+            if mixed is not None:
+                c = {"text": surface.print_program(mixed)[0], "ast": mixed, "mixed": True}
+                stats["programs_mixing_coroutines"] += 1
         cases.append(c)
-    n_cli = len(CORPUS) + n_sub
+    # SsbScript sources (first line `//?: is-ssb-script: true`): the real SsbScript decompiler's text for (a) compiled routine
+    # sets of the first programs (loops at the start of routine 0 jump to the very first op, offset 0 of the SsbScript compiler),
+    # (b) random routine sets of the C07 generator (jumps anywhere incl. the first op and other routines, coroutines, empty routines)
+    n_ssbs = 16 if quick else 300
+    pre_pool = core.Pool(jobs)
+    try:
+        pre = escommon.compile_all(pre_pool, [c["text"] for c in cases[len(CORPUS):len(CORPUS) + n_ssbs] if not c.get("corrupted")])
+        src_sets = [strip_rs(r) for r in pre if "error" not in r and all(i is not None for i in r["infos"]) and any(r["ops"])]
+        first = [x for x in src_sets if x["ops"][0] and jumps_to(x, x["ops"][0][0]["off"], jt)]
+        from ..gen import ssb as gen_ssb
+        src_sets = first + src_sets[:n_ssbs // 2] + [gen_ssb.gen_set(rng) for _ in range(n_ssbs // 2)]
+        stexts = pmap(pre_pool, "harness.impl_es:decompile_many", [{"rs": x, "ssbs": True} for x in src_sets], 10, 300, {"error": "NoAnswer"})
+    finally:
+        pre_pool.close()
+    ssbs_cases = [{"text": SSBS_MARKER + t["text"], "ssbs": True} for t in stexts if "text" in t]
+    stats["ssbs_sources"] = len(ssbs_cases)
+    cases[len(CORPUS):len(CORPUS)] = ssbs_cases
+    n_cli = len(CORPUS) + len(ssbs_cases) + n_sub
     lookup_case(run, jt, stats)
     pool = core.Pool(jobs)
     try:
@@ -730,6 +814,9 @@ def run(run: core.Run) -> int:
             for kind, what in jbad[:2]:
                 run.violation(kind, what, rep)
             stats["positional" if not jbad else "not_positional"] += 1
+            if c.get("ssbs") or c.get("name", "").startswith("ssbs"):
+                stats["ssbs_compiled"] += 1
+                stats["ssbs_jumps_to_offset_0"] += jumps_to(ref_rs, 0, jt)
             c["jbad"] = jbad
         noans = {"rc": None, "stdout": "", "stderr_last": "no answer"}
 
